@@ -192,4 +192,93 @@ theorem all_trAlts {N : Naming} {p : Attrs → Nat → Bool} {u : Bool} (h : Nod
       simp [trAlts, hv, toDTs, allNodesL, ih, this]
 end
 
+
+/-! ### the hypotheses of C13's theorems as per-node predicates -/
+open Dcg.Proofs.Types
+
+mutual
+theorem wfTree_eq : ∀ t : DT, wfTree t = allNodes wfAttrs t
+  | .mk a key kids => by simp [wfTree, allNodes, wfTreeO_eq key, wfTreeL_eq kids]
+theorem wfTreeO_eq : ∀ k : Option DT, wfTreeO k = allNodesO wfAttrs k
+  | none => rfl
+  | some k => by simp [wfTreeO, allNodesO, wfTree_eq k]
+theorem wfTreeL_eq : ∀ ts : List DT, wfTreeL ts = allNodesL wfAttrs ts
+  | [] => rfl
+  | t :: ts => by simp [wfTreeL, allNodesL, wfTree_eq t, wfTreeL_eq ts]
+end
+
+mutual
+theorem freeTree_eq : ∀ t : DT, freeTree t = allNodes (fun a _ => freeAttrs a) t
+  | .mk a key kids => by simp [freeTree, allNodes, freeTreeO_eq key, freeTreeL_eq kids]
+theorem freeTreeO_eq : ∀ k : Option DT, freeTreeO k = allNodesO (fun a _ => freeAttrs a) k
+  | none => rfl
+  | some k => by simp [freeTreeO, allNodesO, freeTree_eq k]
+theorem freeTreeL_eq : ∀ ts : List DT, freeTreeL ts = allNodesL (fun a _ => freeAttrs a) ts
+  | [] => rfl
+  | t :: ts => by simp [freeTreeL, allNodesL, freeTree_eq t, freeTreeL_eq ts]
+end
+
+mutual
+/-- a tree without a node of two or more members has no union node: it is inside `opRegion` -/
+theorem opRegion_of_small (o : Types.Opts) : ∀ t : DT, allNodes (fun _ n => decide (n < 2)) t = true → opRegion o t = true
+  | .mk a key kids, h => by
+    simp only [allNodes, Bool.and_eq_true, decide_eq_true_eq] at h
+    have hn : nodeRegion o a kids = true := by
+      rw [nodeRegion, if_neg (fun hc => Nat.not_le.mpr h.1.1 hc.2)]
+    simp [opRegion, hn, opRegionO_of_small o key h.1.2, opRegionL_of_small o kids h.2]
+theorem opRegionO_of_small (o : Types.Opts) : ∀ k : Option DT, allNodesO (fun _ n => decide (n < 2)) k = true → opRegionO o k = true
+  | none, _ => rfl
+  | some k, h => by simp only [allNodesO] at h; simp [opRegionO, opRegion_of_small o k h]
+theorem opRegionL_of_small (o : Types.Opts) : ∀ ts : List DT, allNodesL (fun _ n => decide (n < 2)) ts = true → opRegionL o ts = true
+  | [], _ => rfl
+  | t :: ts, h => by
+    simp only [allNodesL, Bool.and_eq_true] at h
+    simp [opRegionL, opRegion_of_small o t h.1, opRegionL_of_small o ts h.2]
+end
+
+/-- class names are plain: non-empty, none of `[ ] , |`, no white space (every Python identifier is) -/
+def namesPlain (N : Naming) : Prop := (∀ pos, plainName (N.cls pos) = true) ∧ (∀ n, plainName (N.ref n) = true)
+/-- no class is named like one of the nine container names (`List`, `list`, `Sequence`, …) -/
+def namesFree (N : Naming) : Prop :=
+  (∀ pos, allCont.contains (N.cls pos) = false) ∧ (∀ n, allCont.contains (N.ref n) = false)
+
+theorem nodeOK_wf (N : Naming) (hN : namesPlain N) (u : Bool) : NodeOK N wfAttrs u where
+  leaf := by intro s hs; rcases hs with rfl | rfl | rfl | rfl | rfl | rfl <;> decide
+  cls := by intro pos; simp [wfAttrs, hN.1 pos]
+  ref := by intro n; simp [wfAttrs, hN.2 n]
+  wrap1 := by decide
+  list1 := by decide
+  dict1 := by decide
+  opt1 := by decide
+  free := by decide
+  union := by intro _ n hn; simp [wfAttrs]; omega
+
+theorem nodeOK_free (N : Naming) (hN : namesFree N) (u : Bool) : NodeOK N (fun a _ => freeAttrs a) u where
+  leaf := by intro s hs; rcases hs with rfl | rfl | rfl | rfl | rfl | rfl <;> decide
+  cls := by
+    intro pos; have := hN.1 pos
+    simp only [freeAttrs, List.all_nil, Bool.and_true, Bool.and_eq_true, Bool.not_eq_true']
+    exact ⟨by decide, this⟩
+  ref := by
+    intro n; have := hN.2 n
+    simp only [freeAttrs, List.all_nil, Bool.and_true, Bool.and_eq_true, Bool.not_eq_true']
+    exact ⟨by decide, this⟩
+  wrap1 := by decide
+  list1 := by decide
+  dict1 := by decide
+  opt1 := by decide
+  free := by decide
+  union := by intro _ n _; decide
+
+theorem nodeOK_small (N : Naming) : NodeOK N (fun _ n => decide (n < 2)) false where
+  leaf := by intro s _; decide
+  cls := by intro pos; decide
+  ref := by intro n; decide
+  wrap1 := by decide
+  list1 := by decide
+  dict1 := by decide
+  opt1 := by decide
+  free := by decide
+  union := by intro h; cases h
+
 end Dcg.Proofs.TreeBridge
